@@ -16,7 +16,7 @@ Import ListNotations.
 
 (* no reported conflict => no execution dereferences nil, whatever the opaque conditions answer *)
 Theorem C01_clean_means_panic_free : forall prog afuel ctr pk r st,
-  analyze_program afuel ctr pk prog = Some r -> r_gsafe r = true -> r_clocal r = true ->
+  analyze_program afuel ctr pk prog = Some r -> r_gsafe r = true -> r_clocal r = true -> r_nodel r = true ->
   wf_program prog = true -> ctr_arity ctr 0 (p_funcs prog) = true -> impls_plain prog ctr = true ->
   (forall g fd, ctr g = true -> nth_error (p_funcs prog) g = Some fd -> contract_true prog fd) ->
   pkg_run [] [] (all_triggers r) st -> conflicts st = [] ->
@@ -26,7 +26,7 @@ Print Assumptions C01_clean_means_panic_free.
 
 (* if some execution dereferences nil, at least one diagnostic is reported *)
 Theorem C01_panic_is_reported : forall prog afuel ctr pk r st fuel oracle d,
-  analyze_program afuel ctr pk prog = Some r -> r_gsafe r = true -> r_clocal r = true ->
+  analyze_program afuel ctr pk prog = Some r -> r_gsafe r = true -> r_clocal r = true -> r_nodel r = true ->
   wf_program prog = true -> ctr_arity ctr 0 (p_funcs prog) = true -> impls_plain prog ctr = true ->
   (forall g fd, ctr g = true -> nth_error (p_funcs prog) g = Some fd -> contract_true prog fd) ->
   pkg_run [] [] (all_triggers r) st ->
@@ -36,7 +36,7 @@ Print Assumptions C01_panic_is_reported.
 
 (* the same at the level of the constraint system, independent of the engine's algorithm *)
 Theorem C01_no_flow_means_panic_free : forall prog afuel ctr pk r,
-  analyze_program afuel ctr pk prog = Some r -> r_gsafe r = true -> r_clocal r = true ->
+  analyze_program afuel ctr pk prog = Some r -> r_gsafe r = true -> r_clocal r = true -> r_nodel r = true ->
   wf_program prog = true -> ctr_arity ctr 0 (p_funcs prog) = true -> impls_plain prog ctr = true ->
   (forall g fd, ctr g = true -> nth_error (p_funcs prog) g = Some fd -> contract_true prog fd) ->
   ~ has_flow (csys_of [] [] (all_triggers r)) ->
@@ -77,7 +77,7 @@ Print Assumptions C01_refuted_without_contract_locality.
 (* non-vacuity: a program with calls, guards, a loop and a package-level variable meets every premise *)
 Example C01_example :
   exists r res,
-    analyze_program 8 no_ctr one_pkg ex_ok = Some r /\ r_gsafe r = true /\ r_clocal r = true /\
+    analyze_program 8 no_ctr one_pkg ex_ok = Some r /\ r_gsafe r = true /\ r_clocal r = true /\ r_nodel r = true /\
     wf_program ex_ok = true /\ ctr_arity no_ctr 0 (p_funcs ex_ok) = true /\
     analyze_pkg all_exported 200 [] [] (all_triggers r) = Finished res /\ r_conflicts res = [] /\
     guarded ex_ok = true.
